@@ -17,7 +17,7 @@ IDT = scene.xf_tokens(scene.IDENT)
 
 def metamorphic(ctx):
     rng = ctx.rng
-    n = 360 if ctx.tier == "quick" else 6000
+    n = 480 if ctx.tier == "quick" else 6400
     A, B, kinds = [], [], []
     for i in range(n):
         W, H = rng.randrange(2, 11), rng.randrange(2, 11)
@@ -25,8 +25,24 @@ def metamorphic(ctx):
         xf = scene.rand_xf(rng, general=0.6)
         xt = scene.xf_tokens(xf)
         hdr = "%d %d I %s" % (W, H, init)
-        k = i % 7
-        if k == 6:
+        k = i % 8
+        if k == 7:
+            # an image source is fixed in user space: drawing under a translation T (quarter-pixel amounts, exact in f32)
+            # samples the image at transform(T^-1 p); the same picture must come from drawing the translated rectangle
+            # under the identity with the source transform T^-1 . transform (all entries dyadic: no rounding anywhere)
+            a_, b_ = rng.randrange(-12, 13) / 4.0, rng.randrange(-12, 13) / 4.0
+            sc_ = rng.choice([1.0, 1.0, 2.0, 0.5])
+            tx_, ty_ = rng.randrange(-8, 9) / 4.0, rng.randrange(-8, 9) / 4.0
+            img = scene.image_tokens(rng)
+            ext, flt = rng.choice(["pad", "repeat"]), rng.choice(["nearest", "nearest", "bilinear"])
+            rx, ry, rw, rh = float(rng.randrange(-2, W)), float(rng.randrange(-2, H)), float(rng.randrange(1, W + 2)), float(rng.randrange(1, H + 2))
+            o = scene.rand_opts(rng, modes=[1, 3, 3])
+            srcA = "image %s %s %s %s" % (img, ext, flt, scene.xf_tokens((sc_, 0.0, 0.0, sc_, tx_, ty_)))
+            srcB = "image %s %s %s %s" % (img, ext, flt, scene.xf_tokens((sc_, 0.0, 0.0, sc_, tx_ - a_ * sc_, ty_ - b_ * sc_)))
+            A.append("scene %d %s ; xf %s ; fillrect %d %d %d %d %s %s" % (len(A), hdr, scene.xf_tokens((1.0, 0.0, 0.0, 1.0, a_, b_)), FB(rx), FB(ry), FB(rw), FB(rh), srcA, o))
+            B.append("scene %d %s ; fillrect %d %d %d %d %s %s" % (len(B), hdr, FB(rx + a_), FB(ry + b_), FB(rw), FB(rh), srcB, o))
+            kinds.append("an image source drawn under a translation == the translated drawing with the source transform composed")
+        elif k == 6:
             # pop_layer composites the layer, and clear() fills, in device space: the transform in force when they are
             # called (any T, singular ones included) has no influence on the pixels
             d = scene.draw_op(rng, W, H, dict(draw_kinds=["fill", "fillrect", "mask", "stroke"]))
@@ -138,7 +154,7 @@ def stroke_scale(ctx):
                 ops.append("L " + scene.fpt(*P()))
         if rng.random() < 0.3:
             ops.append("Z")
-        s = rng.choice([0.125, 0.0625, 0.03125, 0.015625, 0.25])
+        s = rng.choice([0.125, 0.0625, 0.03125, 0.015625, 0.25, 1.0 / 1024, 1.0 / 2048, 1.0 / 4096])
         wd = rng.choice([2.0, 3.0, 4.0, 6.0])
         cap, join = rng.choice(["butt", "round", "square"]), rng.choice(["miter", "round", "bevel"])
         sty = lambda w_: "STYLE %d %s %s %d 0 %d" % (FB(w_), cap, join, FB(4.0), FB(0.0))
@@ -217,8 +233,36 @@ ASSUME = ["user-space placement of sources is the model's (C12/C13): compared bi
           "transform, no tolerance", "stroke under T: the stroker's outline is taken from the crate and checked by C04"]
 
 
+def sources_under_ctm(ctx, base):
+    """Image and gradient sources with the simplest placements of their own (identity, integer or quarter translations)
+    drawn under every kind of current transform: whatever short cut the shader selection takes for 'simple' source
+    transforms must be decided on the combination with the current transform"""
+    rng = ctx.rng
+    n = 250 if ctx.tier == "quick" else 3000
+    out = []
+    for j in range(n):
+        W, H = rng.randrange(3, 10), rng.randrange(2, 8)
+        px = [gen.premul_pixel(rng) for _ in range(W * H)]
+        t = scene.rand_xf(rng, general=0.3)
+        while t == scene.IDENT or t[0] * t[3] - t[1] * t[2] == 0:
+            t = scene.rand_xf(rng, general=0.3)
+        ops = ["xf " + scene.xf_tokens(t)]
+        for _ in range(rng.randrange(1, 3)):
+            own = rng.choice([scene.IDENT, (1.0, 0.0, 0.0, 1.0, float(rng.randrange(-3, 4)), float(rng.randrange(-3, 4))),
+                              (1.0, 0.0, 0.0, 1.0, rng.randrange(-8, 9) / 4.0, rng.randrange(-8, 9) / 4.0)])
+            if rng.random() < 0.7:
+                src = "image %s %s %s %s" % (scene.image_tokens(rng), rng.choice(["pad", "repeat"]), rng.choice(["nearest", "nearest", "bilinear"]), scene.xf_tokens(own))
+            else:
+                src = scene.rand_source(rng, W, H, ["linearc", "radialc", "linear"])
+            x, y = float(rng.randrange(-3, W + 1)), float(rng.randrange(-3, H + 1))
+            ops.append("fillrect %d %d %d %d %s %s" % (FB(x), FB(y), FB(float(rng.randrange(1, W + 4))), FB(float(rng.randrange(1, H + 4))), src,
+                                                     scene.rand_opts(rng, modes=[1, 1, 3, 3, 12])))
+        out.append("scene %d %d %d I %s ; %s" % (base + j, W, H, " ".join(map(gen.hexpx, px)), " ; ".join(ops)))
+    return out
+
+
 def run(ctx):
-    return _scene.run_property(ctx, CFG, 1500, 20000, RULE, concrete, ASSUME, post=post, nontrivial=nontrivial)
+    return _scene.run_property(ctx, CFG, 1500, 20000, RULE, concrete, ASSUME, post=post, nontrivial=nontrivial, extra_lines=sources_under_ctm)
 
 
 def replay(ctx, path):
